@@ -99,3 +99,74 @@ def declare(reg, eng):
                                     "and effect_arg_nth('hash.update', 1, 1) == %s)" % (SKIP, AV))]}},
     ))
     reg.contracts["HashComputer.update"]["locals"] = {"xpmtype": "ObjectType", "arguments": "list[Argument]"}
+
+    # ------------------------------------------------------------ ConfigInformation.identifiers (C01, C03, C14)
+    # caching discipline (a cache entry is written only for a sealed configuration and read only from one) and the
+    # byte stream of the full identifier: raw identifier, pre-task identifiers in *sorted* order, init tasks in order
+    eng.load("ConfigInformation.identifiers", "core/objects.py")
+    sha = z3.Function("sha256_of", BytesS, BytesS)
+    rawid = z3.Function("rawid_all", Val, BytesS)          # bytes of the raw identifier of a configuration (ML2: names the result of the property)
+    bcat = z3.Function("cat_bytes", SeqV, Int, BytesS)     # concatenation of a prefix of a sequence of bytes values
+    brid = z3.Function("cat_rawid", SeqV, Int, BytesS)     # concatenation of the raw identifiers of a prefix of a sequence of configurations
+    ble = z3.Function("val_le", Val, Val, z3.BoolSort())   # the order used by sorted() on bytes
+    reg.specfuns.update(
+        sha256_of=lambda e, st, a: V(Val.BytesV(sha(vbs(a[0].t))), "bytes"),
+        rawid_all=lambda e, st, a: V(Val.BytesV(rawid(a[0].t)), "bytes"),
+        bytes_le=lambda e, st, a: V(BoolV(ble(a[0].t, a[1].t)), "bool"),
+        catbytes=unfold(bcat, lambda e, st, seq, i: vbs(seq[i])),
+        catrawid=unfold(brid, lambda e, st, seq, i: rawid(seq[i])))
+    reg.classes["Identifier"]["fields"]["all"] = "bytes"
+    reg.contract("hashlib.sha256", params=[], fresh="Hasher", returns="Hasher", modifies=[], ensures=["result.stream == b''"])
+    reg.contract("Hasher.digest", params=["self"], types={"self": "Hasher"}, returns="bytes", modifies=[], ensures=["result == sha256_of(self.stream)"])
+    reg.contract("Identifier", params=["main"], fresh="Identifier", returns="Identifier", modifies=[],
+                 ensures=["result.main == main", "result.all == main", "result.has_loops == False"])
+    reg.contract("ConfigInformation.collect_pre_tasks", params=["self"], returns="list[Config]", fresh="list", modifies=[], effect="collect_pre_tasks")
+    # raw_identifier is identifiers(True)[0]: it returns before the pre-task part, and HashComputer.compute never caches, so the
+    # only cache it may write is the one of its own object - under the same discipline that is proved for identifiers() below
+    reg.contract("ConfigInformation.raw_identifier", params=["self"], types={"self": "ConfigInformation"}, returns="Identifier",
+                 modifies=["self._raw_identifier"],
+                 ensures=["result.all == rawid_all(self)",
+                          "implies(not old(self._sealed) or not isnone(old(self._raw_identifier)), self._raw_identifier is old(self._raw_identifier))"],
+                 raises={"Exception": {"when": [], "modifies": []}})
+    eng.properties["ConfigInformation.raw_identifier"] = True
+    UNSEALED_KEEPS = "implies(not old(self._sealed), self._raw_identifier is old(self._raw_identifier) and self._full_identifier is old(self._full_identifier))"
+    RECOMPUTE = "(not old(self._sealed) or isnone(old(self._raw_identifier)))"
+    FULLNEW = "(not only_raw and (not old(self._sealed) or isnone(old(self._full_identifier))))"
+    CACHE_INV = ["implies(not old(self._sealed), self._raw_identifier is old(self._raw_identifier))",
+                 "implies(old(self._sealed), self._raw_identifier is raw_identifier)",
+                 "self._full_identifier is old(self._full_identifier)"]
+    reg.contract("ConfigInformation.identifiers", params=["self", "only_raw"], types={"self": "ConfigInformation", "only_raw": "bool"},
+                 returns="tuple", no_replay=True,
+                 requires=["isclass(self.pyobject, Config)", "self.pyobject.__xpm__ is self"],
+                 ensures=[
+                     # nothing is cached for a configuration that can still change
+                     (("C01", "C03", "C14"), UNSEALED_KEEPS),
+                     # a cache entry, once written, is never replaced
+                     ("C01", "implies(not isnone(old(self._raw_identifier)), self._raw_identifier is old(self._raw_identifier))"),
+                     ("C01", "implies(not isnone(old(self._full_identifier)), self._full_identifier is old(self._full_identifier))"),
+                     # a cached identifier is used only when sealed; otherwise the identifier is recomputed from the content
+                     (("C01", "C03"), f"implies(not {RECOMPUTE}, at(result, 0) is old(self._raw_identifier) and no_effect('hash.compute'))"),
+                     (("C01", "C03"), f"implies({RECOMPUTE}, effect_count('hash.compute') == 1 and at(result, 0) is effect_result('hash.compute') "
+                                      "and effect_arg('hash.compute', 0) is self.pyobject)"),
+                     ("C01", "implies(old(self._sealed), self._raw_identifier is at(result, 0))"),
+                     ("C01", "implies(only_raw, at(result, 1) is old(self._full_identifier))"),
+                     ("C01", f"implies(not only_raw and not {FULLNEW}, at(result, 1) is old(self._full_identifier))"),
+                     ("C01", f"implies({FULLNEW}, isfresh(at(result, 1)) and at(result, 1).has_loops == at(result, 0).has_loops)"),
+                     ("C01", "implies(not only_raw and old(self._sealed), self._full_identifier is at(result, 1))"),
+                 ],
+                 raises={"NotImplementedError": {"when": []}, "Exception": {"when": []}, "AssertionError": {"when": []}},
+                 modifies=None,
+                 loops={
+                     "pre_task": {"invariants": CACHE_INV + ["isfresh(_comp)", "length(_comp) == _i", "forall(k, 0, _i, at(_comp, k) == rawid_all(at(_seq, k).__xpm__))"]},
+                     # the pre-task identifiers are fed to the hash in sorted order: the result cannot depend on the order in which
+                     # the walk (or a set) enumerates them
+                     "task_id": {"no_break": True,
+                                 "invariants": ["hasher.stream == raw_identifier.all + catbytes(_seq, _i)"],
+                                 "body_post": [("C01", "implies(_i > 0, bytes_le(at(_seq, _i - 1), at(_seq, _i)))"),
+                                               ("C01", "effect_count('Hasher.update') == 1 and effect_arg('Hasher.update', 1) == at(_seq, _i)")]},
+                     "init_task": {"no_break": True, "invariants": CACHE_INV,
+                                   "body_post": [("C01", "effect_count('Hasher.update') == 1 and effect_arg('Hasher.update', 1) == rawid_all(init_task.__xpm__)")]},
+                 })
+    reg.contracts["ConfigInformation.identifiers"]["locals"] = {"raw_identifier": "opt:Identifier", "full_identifier": "opt:Identifier"}
+    reg.contracts["Hasher.update"]["effect"] = "Hasher.update"
+    reg.contracts["HashComputer.compute"]["effect"] = "hash.compute"
